@@ -439,15 +439,8 @@ def check_i2(rep, max_len=8):
         rep.broke("I2: three-argument binary_interval_search not found")
         return
     fn = fns[0]
-    body = A.body(fn.node)
-    pr = [p.get("name") for p in A.params(fn.node)]      # range, query, comparator
-
-    class Ret(Exception):
-        def __init__(self, v):
-            self.v = v
-
-    class Brk(Exception):
-        pass
+    import mach
+    from fractions import Fraction
 
     class Bad(Exception):
         pass
@@ -455,128 +448,39 @@ def check_i2(rep, max_len=8):
     class Fault(Exception):
         pass
 
+    decls = {}
+    for x in idx:
+        if x.kind in A.FUNCS and x.pattern and A.body(x.node) is not None and x.file and x.file.startswith(fe.INCLUDE):
+            if not any(y.file == x.file and y.line == x.line for y in decls.get(x.qname.split("::")[-1], [])):
+                decls.setdefault(x.qname.split("::")[-1], []).append(x)
+
+    def compare3(M, v):
+        x, y = mach.simp(v[0]), mach.simp(v[1])
+        return Fraction((x > y) - (x < y))
+
     def run(arr, t, numeric):
-        env = {}
-        steps = [0]
-
-        def ev(e):
-            k = e[0]
-            if k == "num":
-                return float(e[1]) if e[1].denominator != 1 else int(e[1])
-            if k == "bool":
-                return bool(e[1])
-            if k == "ref":
-                if e[1] == pr[1]:
-                    return t
-                if e[1] in env:
-                    return env[e[1]]
-                raise Bad("name %s" % e[1])
-            if k == "un" and e[1] == "*":
-                i = ev(e[2])
-                if not (0 <= i < len(arr)):
-                    raise Fault("dereferences position %d of a range of length %d" % (i, len(arr)))
-                return arr[i]
-            if k == "un" and e[1] == "!":
-                return not ev(e[2])
-            if k == "ctor" and len(e[2]) == 1:
-                v = ev(e[2][0])
-                if "int" in e[1]:
-                    if v != v or v in (float("inf"), float("-inf")):
-                        raise Fault("converts %s to an integer" % v)
-                    return int(v)          # truncation toward zero, as the cast does
-                return v
-            if k == "call":
-                nm = str(e[1]).split("::")[-1]
-                a = e[2]
-                if nm == "cbegin" or nm == "begin":
-                    return 0
-                if nm == "cend" or nm == "end":
-                    return len(arr)
-                if nm == "empty":
-                    return len(arr) == 0
-                if nm == pr[2]:
-                    x, y = ev(a[0]), ev(a[1])
-                    return (x > y) - (x < y)
-                if nm == "distance":
-                    return ev(a[1]) - ev(a[0])
-                if nm == "next":
-                    if len(a) == 1:
-                        return ev(a[0]) + 1
-                    it, n = ev(a[0]), ev(a[1])
-                    if len(a) == 3:
-                        bound = ev(a[2])
-                        if n >= 0:
-                            return min(it + n, bound) if it <= bound else it    # std::ranges::next(i, n, bound) stops at bound
-                        return max(it + n, bound)
-                    return it + n
-                raise Bad("call %s" % nm)
-            if k == "op":
-                op = e[1]
-                if op == "||":
-                    return bool(ev(e[2])) or bool(ev(e[3]))
-                if op == "&&":
-                    if e[2][0] == "ref" and e[2][1] == "is_convertible_v":
-                        return numeric
-                    return bool(ev(e[2])) and bool(ev(e[3]))
-                if op == "=":
-                    env[e[2][1]] = ev(e[3])
-                    return env[e[2][1]]
-                x, y = ev(e[2]), ev(e[3])
-                if op == "+":
-                    return x + y
-                if op == "-":
-                    return x - y
-                if op == "*":
-                    return x * y
-                if op == "/":
-                    if y == 0:
-                        raise Fault("divides by zero (%s / %s)" % (x, y))
-                    return float(x) / float(y)
-                return {"<": x < y, "<=": x <= y, ">": x > y, ">=": x >= y, "==": x == y, "!=": x != y}[op]
-            raise Bad("expression %s" % A.show(e)[:50])
-
-        def ex(stmt):
-            steps[0] += 1
-            if steps[0] > 5000:
-                raise Fault("does not terminate")
-            k = stmt.get("kind")
-            ks = A.kids(stmt)
-            if k == "CompoundStmt":
-                for c in ks:
-                    ex(c)
-            elif k == "DeclStmt":
-                for v in ks:
-                    if v.get("kind") == "VarDecl" and A.kids(v):
-                        env[v.get("name")] = ev(A.to_expr(A.kids(v)[-1]))
-            elif k == "IfStmt":
-                if ks and ks[0].get("kind") == "DeclStmt":      # if (init; cond)
-                    ex(ks[0])
-                    ks = ks[1:]
-                if ev(A.to_expr(ks[0])):
-                    ex(ks[1])
-                elif len(ks) > 2:
-                    ex(ks[2])
-            elif k == "WhileStmt":
-                try:
-                    while ev(A.to_expr(ks[0])):
-                        ex(ks[1])
-                except Brk:
-                    pass
-            elif k == "BreakStmt":
-                raise Brk()
-            elif k == "ReturnStmt":
-                raise Ret(ev(A.to_expr(ks[0])))
-            elif k in ("BinaryOperator", "CXXOperatorCallExpr", "CompoundAssignOperator", "ExprWithCleanups"):
-                ev(A.to_expr(stmt))
-            elif k in ("NullStmt",) or k is None:
-                return
-            else:
-                raise Bad("statement kind %s" % k)
+        """engine M: the AST of binary_interval_search is abstractly executed on an index machine (iterators are positions of a vector model; the
+        comparator is three-way comparison; ranges::next saturates at its bound; casts to integer types truncate)"""
+        def traits(M, n, env, _):
+            if "is_convertible_v" in (n or ""):
+                return numeric
+            return NotImplemented
+        M = mach.Machine(decls=decls, funcs={"name:*": mach.PyFunc(traits, lazy=True), "empty": mach.PyFunc(lambda M_, v: len(v[0].items) == 0)}, max_steps=20000)
+        M.ieee_division = True
+        M.global_env = mach.Env()
+        vec = mach.Vec([Fraction(x) for x in arr], "r")
         try:
-            ex(body)
-        except Ret as r:
-            return r.v
-        raise Bad("function falls off its end")
+            r = M.run_function(fn, [mach.Cell(vec), mach.Cell(Fraction(t)), mach.Cell(mach.PyFunc(compare3))])
+        except mach.AbstractViolation as ex:
+            raise Fault(str(ex))
+        except mach.Unab as ex:
+            if "step limit" in str(ex):
+                raise Fault("does not terminate")
+            raise Bad(str(ex))
+        r = M.rv(r)
+        if not isinstance(r, mach.It) or r.v is not vec:
+            raise Bad("returns %s, not an iterator of the range" % mach.show_val(r))
+        return r.i
 
     def spec(arr, t):
         n = len(arr)
@@ -587,7 +491,8 @@ def check_i2(rep, max_len=8):
         return [i for i in range(n - 1) if arr[i] <= t < arr[i + 1]]   # unique for sorted input
 
     alphabet = (0, 1, 2, 3)
-    queries = [x / 2.0 for x in range(-1, 8)]
+    from fractions import Fraction as _F
+    queries = [_F(x, 2) for x in range(-1, 8)]
     for numeric in (True, False):
         bad = None
         cases = 0
